@@ -36,12 +36,14 @@ def fragSel (defs : List Definition) (name : String) : Option SelSet :=
     | .frag _ n _ _ s => if n.name == name then some s else acc
     | _ => acc) none
 
+/-- The selection set of an operation definition. -/
+def opSel? : Definition → Option SelSet
+  | .op _ _ _ _ s => some s
+  | _ => none
+
 /-- The operation `ValidateCost("", …)` walks: the only one; `none` when there are none or several. -/
 def soleOperation (defs : List Definition) : Option SelSet :=
-  match defs.filterMap (fun d =>
-    match d with
-    | .op _ _ _ _ s => some s
-    | _ => none) with
+  match defs.filterMap opSel? with
   | [s] => some s
   | _ => none
 
